@@ -170,12 +170,90 @@ def transform_case(rng, idx):
     return ["case tr%d %s" % (idx, kind)] + ops
 
 
+def dyadic(rng, zero_p=0.25):
+    if rng.random() < zero_p:
+        return 0.0
+    return rng.randint(-32, 32) / 8.0
+
+
+def shape_bounds(rng, shape):
+    """(lo, hi) as floats (unused side = 0) and the open interval of legal interior values"""
+    if shape == "none":
+        return 0.0, 0.0, None, None
+    if shape in ("cc", "oo", "co", "oc"):
+        lo, hi = rnd_interval(rng)
+        return lo, hi, lo, hi
+    b = rnd_bound(rng)
+    if shape in ("gt", "ge"):
+        return b, 0.0, b, None
+    return 0.0, b, None, b
+
+
+def wrapper_case(rng, idx, stats):
+    n = rng.randint(1, 5)
+    toks = []
+    shapes = []
+    for i in range(n):
+        shape = rng.choice(SHAPES)
+        lo, hi, ilo, ihi = shape_bounds(rng, shape)
+        v = value_in(rng, ilo, ihi, stats)
+        r = rng.random()
+        # closed bounds: sometimes exactly at the bound / within TINY of it (init_ nudges the value)
+        if r < 0.06 and shape in ("cc", "co", "ge"):
+            v = lo if rng.random() < 0.7 else lo + 2.0 ** -42
+            stats["at_closed"] = stats.get("at_closed", 0) + 1
+        elif r < 0.12 and shape in ("cc", "oc", "le"):
+            v = hi if rng.random() < 0.7 else hi - 2.0 ** -42
+            stats["at_closed"] = stats.get("at_closed", 0) + 1
+        elif r < 0.13 and shape in ("oo", "oc", "gt"):
+            # closer than TINY to an open bound: outside the property's quantifier, kept as a
+            # rare stream because the model reproduces what the code does there
+            v = lo + abs(lo) * 2.0 ** -50 + 2.0 ** -60
+            stats["within_tiny_open"] = stats.get("within_tiny_open", 0) + 1
+        if shape in ("cc", "oo", "co", "oc") and not (lo <= v <= hi):
+            v = (lo + hi) / 2
+        shapes.append(shape)
+        toks += [shape, hx(lo), hx(hi), hx(v), hx(dyadic(rng)), hx(dyadic(rng)), hx(dyadic(rng, 0.4))]
+    stats["n%d" % n] = stats.get("n%d" % n, 0) + 1
+    for sh in shapes:
+        stats["shape_" + sh] = stats.get("shape_" + sh, 0) + 1
+    ops = ["w.new %d %s" % (n, " ".join(toks))]
+    h = 2.0 ** -12
+    for _ in range(rng.randint(3, 12)):
+        r = rng.random()
+        if r < 0.45:
+            k = rng.randint(1, n)
+            idxs = sorted(rng.sample(range(n), k))
+            ops.append("w.set %d %s" % (k, " ".join("%d %s" % (i, hx(coord(rng))) for i in idxs)))
+        elif r < 0.58:
+            ops.append("w.d1 %d" % rng.randrange(n))
+        elif r < 0.7:
+            ops.append("w.d2 %d %d" % (rng.randrange(n), rng.randrange(n)))
+        elif r < 0.88 or n == 1:
+            ops.append("w.fd %d %s" % (rng.randrange(n), hx(h)))
+        else:
+            i = rng.randrange(n)
+            j = rng.choice([x for x in range(n) if x != i])
+            if rng.random() < 0.7 and n > 1:
+                j = i + 1 if i + 1 < n else i - 1
+            ops.append("w.fdx %d %d %s" % (i, j, hx(h)))
+    return ["case wr%d n%d" % (idx, n)] + ops
+
+
+STATS = {}
+
+
 def generate(seed, tier):
     rng = random.Random(seed)
     cases = []
     n_tr = 12000 if tier == "thorough" else 1500
     for i in range(n_tr):
         cases.append(transform_case(rng, i))
+    n_wr = 12000 if tier == "thorough" else 1500
+    stats = {}
+    for i in range(n_wr):
+        cases.append(wrapper_case(rng, i, stats))
+    STATS.clear(); STATS.update(stats)
     return cases
 
 
@@ -185,4 +263,4 @@ def coverage_extra(cases, answers):
         t = c[0].split()
         if len(t) > 2:
             kinds[t[2]] = kinds.get(t[2], 0) + 1
-    return {"case_kinds": kinds}
+    return {"case_kinds": kinds, "wrapper_generator_distribution": dict(sorted(STATS.items()))}
